@@ -138,12 +138,13 @@ LIFE_BOUNDS = {"pre_state": "any state satisfying invariant I (Running{pid} with
 LIFE_ENC = ["Popen::{poll,wait,wait_timeout,pid,exit_status,detach,terminate,kill}", "PopenOs::{os_wait,os_wait_timeout,os_terminate,os_kill}",
             "PopenOsImpl::waitpid", "PopenExt::send_signal", "posix::{waitpid,decode_exit_status,kill,check_err}", "libc::{WIFEXITED,WEXITSTATUS,WIFSIGNALED,WTERMSIG}", "Drop for Popen"]
 LIFE_ASSUME = COMMON_ASSUME[:1] + COMMON_ASSUME[3:] + [
-    "waitpid fails only with ECHILD (child reaped elsewhere); stopped/continued children are not reported (no WUNTRACED)",
+    "waitpid fails only with ECHILD (child reaped elsewhere) or, for the blocking wait() under test in h_life_step/h_life_seq/h_life_pair, with an injected EINTR while the child runs; stopped/continued children are not reported (no WUNTRACED)",
+    "the platform-specific part of ChildState::Running (ext) is arbitrary (trait AnyExt: (), bool, integers, Option of those); a killpg() call is a C10 violation in the model kernel",
     "io::Error's CustomOwner::outer_drop function pointer pinned; virtual calls restricted by -Z restrict-vtable"]
 
 
 def life_step():
-    return H("popen", "h_life_step", unwind=3, unwindset=[(r"os_wait_timeout", 4)], timeout=1200, bounds=LIFE_BOUNDS, covers=["COVER/wait-on-running"])
+    return H("popen", "h_life_step", unwind=3, unwindset=[(r"os_wait_timeout", 4)], timeout=1200, bounds=LIFE_BOUNDS, covers=["COVER/wait-on-running", "COVER/wait-interrupted"])
 
 
 def life_seq():
